@@ -118,6 +118,10 @@ def fn_zero():
     return 3
 
 
+def fn_split(y):
+    return (2 * y, -1 * y)
+
+
 def make_python_functions(log=None, fault=None, sites=None):
     """function_map for the Python back ends.  log: list receiving (name, args);
     fault: callable(name) raising when a fault is due."""
@@ -135,7 +139,8 @@ def make_python_functions(log=None, fault=None, sites=None):
     def note(x):
         return None
 
-    base = {"<func>f": fn_f, "<func>g": fn_g, "<func>two": fn_two, "<func>note": note, "<func>zero": fn_zero}
+    base = {"<func>f": fn_f, "<func>g": fn_g, "<func>two": fn_two, "<func>note": note, "<func>zero": fn_zero,
+            "<func>split": fn_split}
     out = {n: wrap(n, f) for n, f in base.items()}
     for site in sites or ():
         out[site] = wrap(site, base[base_function(site)])
@@ -177,6 +182,8 @@ def ref_call(log):
                 return fn_g(*args, **kwargs)
             if name == "<func>two":
                 return fn_two(*args, **kwargs)
+            if name == "<func>split":
+                return fn_split(*args, **kwargs)
             if name == "<func>note":
                 return None
             if name == "<func>zero":
@@ -190,6 +197,9 @@ def ref_call(log):
         if name == "<func>two":
             log.append((name, detail))
             return fn_two(*args, **kwargs)
+        if name == "<func>split":
+            log.append((name, detail))
+            return fn_split(*args, **kwargs)
         if name == "<func>note":
             log.append((name, detail))
             return None
